@@ -462,7 +462,12 @@ pub fn judge(rep: &Report, bytes: &[u8], msg: &Message) -> Option<String> {
         }
     }
     // timed record: frame kept as lowercase hex; decoding that hex again gives the same members
-    let tm = TimedMessage { timestamp: 1.5, frame: bytes.to_vec(), message: Some(msg.clone()), metadata: vec![], decode_time: None };
+    // metadata as the receivers fill it in (two receptions, every optional member present in one of them)
+    let metadata = vec![
+        rs1090::decode::SensorMetadata { system_timestamp: 1.5, gnss_timestamp: Some(1.25), nanoseconds: Some(123_456_789), rssi: Some(-12.5), serial: 17, name: Some("rx-a".to_string()) },
+        rs1090::decode::SensorMetadata { system_timestamp: 1.75, gnss_timestamp: None, nanoseconds: None, rssi: None, serial: 18, name: None },
+    ];
+    let tm = TimedMessage { timestamp: 1.5, frame: bytes.to_vec(), message: Some(msg.clone()), metadata, decode_time: Some(0.001) };
     match guarded(|| serde_json::to_string(&tm)) {
         Ok(Ok(tt)) => match P::parse_document(&tt) {
             Ok(td) => {
@@ -530,7 +535,7 @@ impl Visitor for V<'_> {
 
 pub fn run(ctx: &Ctx, rep: &Report) {
     rep.set_rule("every message accepted in the shared frame space (dispatch, headers, extended-squitter windows, complete field sweeps, Comm-B frames) is serialised; non-trivial = distinct (DF, type code, member-name set) shapes observed");
-    rep.assume("metadata of timed records is empty: receiver metadata is produced outside the decoder");
+    rep.assume("timed records carry two fixed, finite metadata entries (receiver metadata is produced outside the decoder)");
     // self-test of the strict reader and of the finiteness probe
     let selftest = [("{\"a\":1,\"a\":2}", false), ("{\"a\":NaN}", false), ("{\"a\":1}\n{\"b\":2}", false), ("{\"a\":[1,2,{\"b\":null}],\"c\":\"x\\n\"}", true), ("{\"a\":1e999}", false), ("{\"a\":{\"b\":1,\"b\":1}}", false)];
     for (t, ok) in selftest {
